@@ -58,7 +58,8 @@ def run(pid, replay=None):
            "traces_validated_against_impl": acc, "samples": samples,
            "evaluations": len(edges) + len(paths) + extra.get("evaluations", 0), "distinct_nontrivial": len(edges) + len(paths) + extra.get("distinct", 0),
            "rule": "edges: distinct (generator nano, clock, delta) triples of the exhaustively explored MsgIdGen graph (3 calls, 14 clock deltas incl. "
-                   "freeze, +1..3 ns, backward jumps, second rollover); paths: TLC -simulate clock behaviours of 12 calls; connection level: Salts/Ping scripts (requests, pings, acks, salt requests, "
-                   "bad-salt retries, clock advances) on a real mtproto.Conn, msg id / seqno of every written frame judged by ConnProp (Check=C08)",
+                   "freeze, +1..3 ns, backward jumps, second rollover); paths: TLC -simulate clock behaviours of 12 calls; connection level: Salts scripts (requests, pings, acks, salt requests, "
+                   "bad-salt retries, clock advances) and MsgSeq.tla attempted schedules (2-3 concurrent content / service senders, each parked inside the id source and released in "
+                   "every order) on a real mtproto.Conn; ids unique and client-typed per frame, seqno arithmetic in id order at the end of each case (ConnProp, Check=C08)",
            "exhaustive": not replay}
     return V.finish("model_checking", cov, ["MsgIdProp.tla is the verdict oracle", "times relative to a whole-second base"])
